@@ -218,12 +218,25 @@ def h_push_forward(h):
         stubs.reset_rng()
     else:
         np.random.seed(3)
+    seen = []
+    orig_draw = model.draw_sample
+
+    def rec_draw(n_, **kw):
+        seen.append(kw)
+        return orig_draw(n_, **kw)
+
+    model.draw_sample = rec_draw
     smp = t.draw_sample(n)
+    model.draw_sample = orig_draw
     if h.sym:
         stubs.reset_rng()
     else:
         np.random.seed(3)
-    ref_s = tr["inverse"](model.draw_sample(n))
+    h.check(len(seen) == 1, "one-base-sample-per-draw")
+    # the base sample drawn with whatever seed the transformed model forwards (none, or its own random_state)
+    rs = seen[0].get("random_state") if seen else None
+    h.check(rs is None or rs == 42, "forwarded-seed-is-the-models-random_state", f"{rs}")
+    ref_s = tr["inverse"](orig_draw(n, random_state=rs))
     h.check(np.shape(smp) == (n, 2), "sample-shape")
     h.close(smp, ref_s, "samples-are-inverse-transformed-base-samples")
 
